@@ -10,7 +10,7 @@ import aioftp
 import aioftp.client
 import aioftp.server
 
-from harness import clientdrv, corecheck, gen, judge, report
+from harness import clientdrv, corecheck, gen, judge, mc, report
 from harness import world as W
 
 HALF = 15778476
@@ -184,6 +184,19 @@ def run(tier, seed):
         if r["crash"]:
             raise RuntimeError("harness failure: " + r["crash"])
         cases += r["cases"]
+    # wire level: the listing sent is that of the directory the command named when it was given, whatever happens
+    # (CWD, MKD, re-USER ...) between the 150 and the arrival of the data connection - validated against FtpCore
+    mc.into(chk, mc.run_config("MC_Seq_q", "MC_Seq", must_cover=("ReplyEv", "WorkerStep")))
+    login = [["connect", 1], ["send", 1, "USER u1"], ["send", 1, "PASS pw1"]]
+    scheds = []
+    for verb in ("LIST", "MLSD"):
+        for arg in ("", "d", ".", "d/e/..", "/d"):
+            for pre in ([], [["send", 1, "CWD d"]]):
+                for mid in ([], [["send", 1, "CWD d"]], [["send", 1, "CWD /"]], [["send", 1, "CDUP"]], [["send", 1, "MKD d/zz"]],
+                            [["send", 1, "DELE d/g"]], [["send", 1, "USER u2"]], [["send", 1, "RNFR d"], ["send", 1, "RNTO dd"]]):
+                    scheds.append(login + pre + [["send", 1, "EPSV"], ["send", 1, (verb + " " + arg).strip()]] + mid
+                                  + [["dconnect", 1], ["deof", 1], ["send", 1, "PWD"], ["send", 1, "QUIT"]])
+    corecheck.validate(chk, gen.std_cfg(ns=1), gen.STD_TREE, scheds, label="listing-wire")
     chk.cov["evaluations"] += len(cases)
     strip = lambda c: {k: v for k, v in c.items() if k not in ("text", "zone", "what", "error")}
     bad = judge.judge("LsTime", [strip(c) for c in cases], chk, chunk=20000)
